@@ -31,7 +31,9 @@ def case_strategy(draw, tier="quick"):
         p = {"i": iv}
         t = ["LL", "E"]
     elif kind == "partition_t":
-        p = {"n": draw(st.integers(1, 4)), "timeout": iv,
+        # timeout=0 is legal: a partial partition goes out on the next turn of the loop
+        to = draw(st.sampled_from([iv, iv, iv, 0]))
+        p = {"n": draw(st.integers(1, 4)), "timeout": to,
              "key": draw(st.sampled_from([None, None, "key_mod2", "key_self"]))}
         t = ["L", "E"]
     else:
@@ -57,7 +59,7 @@ def execute(case):
     spec = case["spec"]
     nd = spec["nodes"][1]
     kind, p = nd["k"], nd["p"]
-    iv = p.get("i") or p.get("timeout")
+    iv = p["i"] if "i" in p else p["timeout"]
     run = schedule.execute(case, consumer_modes={2: case["cmodes"]["2"]})
     ev = run.log.events
     arr = [(i, e[3], e[5]) for i, e in enumerate(ev) if e[0] == "arr" and e[1] == 1]
